@@ -558,7 +558,7 @@ pub fn prop(tier: Tier) -> Prop {
         name: "graph",
         body: Box::new(body_graph),
         modes: match tier {
-          Tier::Quick => vec![Mode::Deviations(2), Mode::Deviations(3)],
+          Tier::Quick => vec![Mode::Deviations(2), Mode::Deviations(3), Mode::Deviations(4)],
           Tier::Thorough => vec![Mode::Deviations(3), Mode::Deviations(4), Mode::Deviations(5)],
         },
         what: "real builds against a scripted registry: up to 3 jsr: requirements resolved in visit order, lockfile-seeded selections, cutoff date / exclusion, prefer_cached_jsr_versions with cached manifest subsets, version tags; mappings, redirects, used yanked packages and not-found errors vs the function-level reference applied in visit order",
